@@ -7,30 +7,36 @@ import Canopy.Gen.SmtFacts
 
 Model: `Canopy/Model/SmtProof.lean`.
 * `prove H4 t k` is `GetMerkleProof` on the tree `t` of `Canopy/Model/Smt.lean`.
-* `V.verify H n key value membership root proof` is `VerifyProof` **as the code has it today**, with its
-  throw-away tree, node cache, cached key lengths and unbounded re-traversal; it answers
-  `accept | reject | errInvalidProof | errReserved | crash _ | hang`.
-* `verifyFixed` is the proposed repair (no throw-away tree; key validation; the statement is accepted only if
-  the traversal towards the key provably ends at `proof[0]`).
-Both are run against the real code on every check (`Driver/C16.lean`; which of the two the source currently is
-comes from `Gen/SmtFacts.lean`, regenerated from store/smt.go and store/store.go).
+* `verifyFixed H H4 n key value membership root proof` is `VerifyProof` **as the code has it** (since commit 9904ec4):
+  key validation, hash fold, and the statement is accepted only if the traversal towards the key provably ends at
+  `proof[0]`. Outcomes: `accept | reject | errInvalidProof | errReserved`.
+* `storeProofTree written read n committed` is the tree `Store.NewReadOnly(v)` serves proofs from (since commit 28c6f9a the
+  prefix it opens is the one `Root()` / `Commit()` write).
+* `V.verify` is `VerifyProof` as it was BEFORE the repair (throw-away tree, node cache, cached key lengths, unbounded
+  re-traversal; outcomes additionally `crash _ | hang`). It stays as the model of the pre-fix code.
+`Driver/C16.lean` runs, against the real code on every check, whichever of the two verifiers `facts` finds in
+store/smt.go, and `storeProofTree` on the two prefixes `facts` reads off store/store.go (`Gen/SmtFacts.lean`).
 
-## The property, at full strength (`Sound`, `NeverCrashes`, `StoreComplete` below)
+## Live obligations — about the code that exists
 
-**It does not hold of the code as it is.** Part A proves the negation at concrete witnesses (every witness is replayed on
-the real code by the Go driver, oracle signatures in brackets):
+* `source_is_repaired`, `store_reads_written_prefix`  generated facts: store/smt.go has the key-validating algorithm, and
+                                   `NewReadOnly` opens the prefix `Root()` writes. **Reverting either fix breaks these.**
+* `fixed_sound`          for every key length, tree, key, value and EVERY proof (honest, for another key, truncated,
+                         re-ordered, bit-flipped, malformed): an accepted statement is true — under the explicit hash
+                         hypothesis `H4Inj H4` (never an axiom)
+* `fixed_complete`       the proof `GetMerkleProof` produces verifies for the true statement about its key
+* `store_complete`       …also at store level: the tree `NewReadOnly(v)` serves proofs from is the committed one
+* `fixed_never_crashes`  no crash and no hang outcome
+* `fixed_rejects_witnesses`  the four corpus scenarios below are rejected
 
-* `sound_fails_foreign_nonmembership`  [`C16:foreign-proof-accepted-as-nonmembership`]
-* `sound_fails_foreign_membership`     [`C16:foreign-proof-accepted-as-membership`]
-* `crashes_on_honest_proof_for_other_key`, `crashes_on_malformed_proof`   [`C16:verifyproof-panic`]
-* `store_reads_other_prefix`, `store_complete_fails_witness`   [`C16:readonly-store-proof-prefix`]
+## Part A — theorems about the PRE-FIX model (permanent corpus; each replayed on the real code by
+`harness/c16/witness.go`, which must now stay silent; oracle signatures in brackets)
 
-and what does hold today: `complete_own_bounded` (honest proofs verify for the statement they were made for; bounded: all
-states over 3-bit keys — the unbounded statement is proved for the repaired verifier only).
-
-Part B is about the repair: the same witnesses are rejected (`fixed_rejects_witnesses`); it has no crash or hang
-outcome (`fixed_never_crashes`); and for every key length, tree, key and proof: `fixed_sound` (under the explicit hash
-hypothesis `H4Inj`) and `fixed_complete`.
+* `sound_fails_foreign_nonmembership`, `not_sound_before_fix`   [`C16:foreign-proof-accepted-as-nonmembership`]
+* `sound_fails_foreign_membership`                              [`C16:foreign-proof-accepted-as-membership`]
+* `crashes_on_honest_proof_for_other_key`, `crashes_on_malformed_proof`, `not_never_crashes_before_fix`  [`C16:verifyproof-panic`]
+* `store_prefix_mismatch_serves_empty_tree`, `store_complete_fails_witness`   [`C16:readonly-store-proof-prefix`]
+* `complete_own_bounded` — what did hold before the fix (bounded)
 -/
 namespace Canopy.Smt
 open Trie V
@@ -51,7 +57,7 @@ def NeverCrashes (vf : Bytes → Bytes → Bool → Bytes → List PNode → Ver
   ∀ userKey value membership root proof, (∀ w, vf userKey value membership root proof ≠ .crash w) ∧
     vf userKey value membership root proof ≠ .hang
 
-/-! ## Part A — the code as it is -/
+/-! ## Part A — the code as it was before the repair (commits 9904ec4, 28c6f9a) -/
 
 /-- an injective toy hash (the identity): the defects below do not come from hash collisions -/
 def idH (b : Bytes) : Bytes := b
@@ -76,7 +82,7 @@ theorem sound_fails_foreign_membership :
     V.verify idH 4 (uk4 6) [5] true (root4 [5, 6]) (prove (h4 idH) (tree4 [5, 6]) (k4 5)) = .accept
     ∧ (k4 6, [6]) ∈ (tree4 [5, 6]).toList ∧ (k4 6, [5]) ∉ (tree4 [5, 6]).toList := by decide +kernel
 
-theorem not_sound_today : ¬ Sound (V.verify idH 4) idH (h4 idH) 4 := by
+theorem not_sound_before_fix : ¬ Sound (V.verify idH 4) idH (h4 idH) 4 := by
   intro h
   let ops : List Op := [.set (k4 11) [11], .set (k4 1) [1]]
   have hv : ∀ op ∈ ops, op.Valid 4 := by
@@ -106,29 +112,26 @@ theorem crashes_on_malformed_proof :
     ∧ V.verify idH 4 (uk4 11) [11] true [] [⟨[5], [11], 0⟩, ⟨encodeKey (k4 1), [], 0⟩] = .crash .indexOutOfRange := by
   decide +kernel
 
-theorem not_never_crashes_today : ¬ NeverCrashes (V.verify idH 4) := by
+theorem not_never_crashes_before_fix : ¬ NeverCrashes (V.verify idH 4) := by
   intro h
   exact (h (uk4 1) [] false (root4 [4, 11, 1]) (prove (h4 idH) (tree4 [4, 11, 1]) (k4 11))).1 _
     crashes_on_honest_proof_for_other_key
 
-/-- **Store level.** `Store.Root()` writes the commitment tree under one prefix, `Store.NewReadOnly(v)` builds the tree it
-serves proofs from out of another one (both read off store/store.go by `facts` on every run)… -/
-theorem store_reads_other_prefix :
-    Gen.SmtFacts.rootWritesPrefix ≠ Gen.SmtFacts.readOnlyReadsPrefix := by decide
+/-- **Store level (pre-fix).** `Root()` wrote the commitment tree under `x/` (`stateCommitIDPrefix`) while
+`NewReadOnly(v)` opened `c/` (`stateCommitmentPrefix`): with two different prefixes the read-only store serves proofs
+from an empty tree, whatever was committed… -/
+theorem store_prefix_mismatch_serves_empty_tree (n : Nat) (committed : Trie) :
+    storeProofTree [2, 120, 47] [2, 99, 47] n committed = empty n := by
+  simp [storeProofTree]
 
-/-- …so the read-only tree is the empty tree, and the proof it serves for a present key does not verify against the root
-that was committed. -/
+/-- …and the proof served from the empty tree for a present key does not verify against the root that was committed. -/
 theorem store_complete_fails_witness :
     V.verify idH 4 (uk4 11) [11] true (root4 [11]) (prove (h4 idH) (empty 4) (k4 11)) = .reject
     ∧ (k4 11, [11]) ∈ (tree4 [11]).toList := by decide +kernel
 
-/-- which algorithm the source has today (flip when the repair lands: the driver then runs `verifyFixed`) -/
-theorem source_is_unrepaired : Gen.SmtFacts.verifyProofValidatesKeys = false := by decide
-
-/-- What does hold today, bounded: over 3-bit keys (000, 111 and the root key 011 are reserved), for every subset of
+/-- What did hold before the fix, bounded: over 3-bit keys (000, 111 and the root key 011 are reserved), for every subset of
 {010, 101, 110} as the state and each of these keys, the honest proof verifies for the statement it was generated for
-(membership if present, non-membership if absent). The unbounded statement is `fixed_complete`, for the repair; for
-today's verifier completeness of honest proofs is otherwise covered by the correspondence run. -/
+(membership if present, non-membership if absent). The unbounded statement is `fixed_complete`, for the code that exists. -/
 def states3 : List (List Nat) := [[], [2], [5], [6], [2, 5], [2, 6], [5, 6], [2, 5, 6]]
 def k3 (x : Nat) : Key := [x / 4 % 2 == 1, x / 2 % 2 == 1, x % 2 == 1]
 def tree3 (xs : List Nat) : Trie := xs.foldl (fun t x => insert (k3 x) [UInt8.ofNat x] t) (empty 3)
@@ -138,9 +141,19 @@ theorem complete_own_bounded :
       V.verify idH 3 [UInt8.ofNat (x * 32)] [UInt8.ofNat x] (xs.contains x) ((tree3 xs).value (h4 idH))
         (prove (h4 idH) (tree3 xs) (k3 x)) = .accept := by decide +kernel
 
-/-! ## Part B — the repair -/
+/-! ## Live obligations — the code that exists -/
 
-/-- the repaired verifier rejects every witness of part A (and still accepts the honest statements) -/
+/-- **Tie to the source (generated on every run).** store/smt.go's `VerifyProof` is the key-validating algorithm modelled
+by `verifyFixed`: it calls `validNodeKey` and neither builds an in-memory store nor re-traverses. Reverting commit 9904ec4
+makes `facts` emit `false` here and this obligation fails. -/
+theorem source_is_repaired : Gen.SmtFacts.verifyProofValidatesKeys = true := by decide
+
+/-- **Tie to the source (generated on every run).** The prefix `Store.NewReadOnly(v)` opens its commitment tree on is the
+prefix `Store.Root()` / `Commit()` write it under. Reverting commit 28c6f9a breaks this obligation. -/
+theorem store_reads_written_prefix : Gen.SmtFacts.readOnlyReadsPrefix = Gen.SmtFacts.rootWritesPrefix := by decide
+
+
+/-- the verifier rejects every corpus scenario of part A (and still accepts the honest statements) -/
 theorem fixed_rejects_witnesses :
     verifyFixed idH (h4 idH) 4 (uk4 1) [] false (root4 [11, 1]) (prove (h4 idH) (tree4 [11, 1]) (k4 11)) = .reject
     ∧ verifyFixed idH (h4 idH) 4 (uk4 6) [5] true (root4 [5, 6]) (prove (h4 idH) (tree4 [5, 6]) (k4 5)) = .reject
@@ -151,7 +164,7 @@ theorem fixed_rejects_witnesses :
     ∧ verifyFixed idH (h4 idH) 4 (uk4 9) [] false (root4 [4, 11, 1]) (prove (h4 idH) (tree4 [4, 11, 1]) (k4 9)) = .accept := by
   decide +kernel
 
-/-- **The repaired verifier is sound** — for every key length, tree, key, value and EVERY proof (honest, for another key,
+/-- **The verifier is sound** — for every key length, tree, key, value and EVERY proof (honest, for another key,
 truncated, re-ordered, bit-flipped, malformed): an accepted statement is true. The only hypothesis beyond canonical form
 is the hash idealisation, stated explicitly: `H4Inj H4`, the node hash is injective on its 4-tuple. -/
 theorem fixed_sound (H : Bytes → Bytes) {H4 : Bytes → Bytes → Bytes → Bytes → Bytes} (hH : H4Inj H4) {n : Nat}
@@ -170,10 +183,9 @@ example : Sound (verifyFixed idH framed4 4) idH framed4 4 ∧
       (prove framed4 (tree4 [4, 11, 1]) (k4 11)) = .reject :=
   ⟨fixed_sound idH H4Inj_satisfiable (by decide), by decide +kernel, by decide +kernel⟩
 
-/-- **The repaired verifier is complete at the tree level**: the proof `GetMerkleProof` produces for a non-reserved key
+/-- **The verifier is complete at the tree level**: the proof `GetMerkleProof` produces for a non-reserved key
 verifies against the root — membership with the stored value if the key is present, non-membership if it is absent.
-(No hash hypothesis.) At the store level this needs, in addition, that `NewReadOnly` reads the prefix `Root()` writes —
-`store_reads_other_prefix` above is the part of the repair that is a one-word change in store.go. -/
+(No hash hypothesis.) -/
 theorem fixed_complete (H : Bytes → Bytes) (H4 : Bytes → Bytes → Bytes → Bytes → Bytes) {n : Nat} (hn : 0 < n)
     {t : Trie} {S : KMap}
     (h : t.Rep n S) (hs : S.HasSentinels n) (userKey value : Bytes)
@@ -185,7 +197,25 @@ theorem fixed_complete (H : Bytes → Bytes) (H4 : Bytes → Bytes → Bytes →
       verifyFixed H H4 n userKey value false (t.value H4) (prove H4 t (keyOfBytes n (H userKey))) = .accept) :=
   verifyFixed_complete H H4 hn h hs userKey value hres
 
-/-- the repaired verifier is a total function without a crash or hang outcome -/
+/-- **Store-level completeness**, with the prefixes the source has now: the tree `NewReadOnly(v)` serves proofs from is
+the tree committed for `v`, so the proof it serves for any non-reserved key verifies against the root committed for `v`
+(production key length 160). -/
+theorem store_complete (H : Bytes → Bytes) (H4 : Bytes → Bytes → Bytes → Bytes → Bytes) {committed : Trie} {S : KMap}
+    (h : committed.Rep 160 S) (hs : S.HasSentinels 160) (userKey value : Bytes)
+    (hres : keyOfBytes 160 (H userKey) ≠ rootKey 160 ∧ keyOfBytes 160 (H userKey) ≠ minKey 160 ∧
+      keyOfBytes 160 (H userKey) ≠ maxKey 160) :
+    let served := storeProofTree Gen.SmtFacts.rootWritesPrefix Gen.SmtFacts.readOnlyReadsPrefix 160 committed
+    served = committed ∧
+    (S (keyOfBytes 160 (H userKey)) = some (H value) →
+      verifyFixed H H4 160 userKey value true (committed.value H4) (prove H4 served (keyOfBytes 160 (H userKey))) = .accept) ∧
+    (S (keyOfBytes 160 (H userKey)) = none →
+      verifyFixed H H4 160 userKey value false (committed.value H4) (prove H4 served (keyOfBytes 160 (H userKey))) = .accept) := by
+  have hserved : storeProofTree Gen.SmtFacts.rootWritesPrefix Gen.SmtFacts.readOnlyReadsPrefix 160 committed = committed := by
+    simp [storeProofTree, store_reads_written_prefix]
+  simp only [hserved]
+  exact ⟨trivial, fixed_complete H H4 (by decide) h hs userKey value hres⟩
+
+/-- the verifier is a total function without a crash or hang outcome -/
 theorem fixed_never_crashes (H : Bytes → Bytes) (H4 : Bytes → Bytes → Bytes → Bytes → Bytes) (n : Nat) :
     NeverCrashes (verifyFixed H H4 n) := by
   intro uk v m root proof
